@@ -291,6 +291,7 @@ def rename_raw_idents(ws):
 
 
 CURRENT_TIER = "quick"
+PARTIAL_RUN = False
 
 
 def assemble(ws, crates):
@@ -803,8 +804,9 @@ REPLAYS = {
 
 
 def check(prop, tier, only=None, seed=0):
-    global CURRENT_TIER
+    global CURRENT_TIER, PARTIAL_RUN
     CURRENT_TIER = tier
+    PARTIAL_RUN = bool(only)
     t0 = time.time()
     plan = plan_for(prop, tier)
     if only:
@@ -997,8 +999,12 @@ def write_evidence(prop, tier, seed, plan, results, known, confirmed, inconclusi
         "wall_s": round(wall, 1),
         "violations": len(confirmed),
     }
-    os.makedirs(os.path.join(VERIF, "evidence"), exist_ok=True)
-    json.dump(ev, open(os.path.join(VERIF, "evidence", f"{prop}.json"), "w"), indent=1)
+    # partial (--only) and seed-test runs must not overwrite the evidence of the full check
+    edir = os.environ.get("VERIF_EVIDENCE_DIR") or os.path.join(VERIF, "evidence")
+    if PARTIAL_RUN and not os.environ.get("VERIF_EVIDENCE_DIR"):
+        edir = os.path.join(VERIF, "evidence", "partial")
+    os.makedirs(edir, exist_ok=True)
+    json.dump(ev, open(os.path.join(edir, f"{prop}.json"), "w"), indent=1)
 
 
 def replay_file(prop, path):
